@@ -268,7 +268,47 @@ func runC08Live(rec *vk.Rec, ci int) {
 			}
 		}(v)
 	}
+	// joiners: connections that subscribe to the channels the victims sit on while those victims are ending, and stay.
+	// Their acknowledged subscriptions are "subscriptions of other connections": untouched by anybody's ending.
+	type joiner struct {
+		cl    *brokerlab.Client
+		chans []string
+	}
+	var joiners []*joiner
+	var jmu sync.Mutex
+	var jwg sync.WaitGroup
+	jerr := ""
+	for j := 0; j < 3; j++ {
+		jr := vk.NewRand(vk.Seed(), fmt.Sprintf("C08live-j%d", j), ci)
+		jwg.Add(1)
+		go func(j int, jr *vk.Rand) {
+			defer jwg.Done()
+			cl := b.Attach(fmt.Sprintf("j%d", j), nil)
+			if rc, err := cl.Connect(cl.Name, "ju", nil); err != nil || rc != 0 {
+				return
+			}
+			jn := &joiner{cl: cl}
+			for k := 0; k < 12; k++ { // subscribe / unsubscribe churn on the hot channels, ending subscribed
+				ch := chans[jr.Intn(len(chans))]
+				if rc, _, err := cl.Subscribe(kAll + "/" + ch); err != nil || rc == 0x80 {
+					jmu.Lock()
+					jerr = fmt.Sprintf("joiner subscribe: rc=%#x %v", rc, err)
+					jmu.Unlock()
+					return
+				}
+				if k < 10 {
+					cl.Unsubscribe(kAll + "/" + ch)
+				} else if !contains(jn.chans, ch) {
+					jn.chans = append(jn.chans, ch)
+				}
+			}
+			jmu.Lock()
+			joiners = append(joiners, jn)
+			jmu.Unlock()
+		}(j, jr)
+	}
 	kwg.Wait()
+	jwg.Wait()
 	select {
 	case <-pubsDone:
 	case <-time.After(600 * time.Second):
@@ -298,14 +338,43 @@ func runC08Live(rec *vk.Rec, ci int) {
 		}
 		return map[string]interface{}{"victims": vs, "publishers": npub, "per_publisher": perPub}
 	}
-	// 1. trie and counter
-	nodes, d := dump()
-	if diff := liveDiff(d, baseline); diff != "" || nodes != baseNodes {
-		fail("left-behind", fmt.Sprintf("trie differs from the dump before the victims connected (nodes %d vs %d): %s", nodes, baseNodes, diff), wit())
+	if jerr != "" {
+		rec.Inconclusive(jerr)
+		return
 	}
-	if c := b.Svc.VerifConnections(); c != baseConns {
-		fail("connection-counter", fmt.Sprintf("connections=%d, before the victims %d", c, baseConns), wit())
+	// 1. trie and counter: the dump must be the baseline plus exactly the joiners' final subscriptions
+	jids := map[string]*joiner{}
+	for _, jn := range joiners {
+		id, err := jn.cl.Me()
+		if err != nil {
+			rec.Inconclusive("me: " + err.Error())
+			return
+		}
+		jids[id] = jn
+		persistent[id] = true // the joiners stay: their presence transitions are not the victims'
 	}
+	_, pairsNow := b.Svc.VerifTrie().VerifDump()
+	d := map[string]bool{}
+	jgot := map[string]int{}
+	for _, p := range pairsNow {
+		if _, ok := jids[p.ID]; ok {
+			jgot[p.ID]++
+			continue
+		}
+		d[fmt.Sprintf("%v|%s", []uint32(p.Ssid), p.ID)] = true
+	}
+	if diff := liveDiff(d, baseline); diff != "" {
+		fail("left-behind", fmt.Sprintf("trie differs from the dump before the victims connected: %s", diff), wit())
+	}
+	for id, jn := range jids {
+		if jgot[id] != len(jn.chans) {
+			fail("other-connection-disturbed", fmt.Sprintf("joiner %s holds %d acknowledged subscriptions %v (made while the victims were ending) but the trie stores %d for it", jn.cl.Name, len(jn.chans), jn.chans, jgot[id]), wit())
+		}
+	}
+	if c := b.Svc.VerifConnections(); c != baseConns+int64(len(joiners)) {
+		fail("connection-counter", fmt.Sprintf("connections=%d, before the victims %d plus %d joiners", c, baseConns, len(joiners)), wit())
+	}
+	_ = baseNodes
 	// 2. final tagged publish per channel through a fresh client (PUBACK barrier), then the observer's stream
 	fin := b.Attach("fin", nil)
 	fin.Connect("fin", "", nil)
@@ -321,6 +390,27 @@ func runC08Live(rec *vk.Rec, ci int) {
 	}
 	for _, ch := range chans {
 		sent2["fin|"+ch] = 1
+	}
+	for _, jn := range joiners {
+		jp, _ := jn.cl.Take()
+		cnt := map[string]int{}
+		for _, p := range jp {
+			if strings.HasPrefix(p.Payload, "fin|") {
+				cnt[p.Topic]++
+			}
+		}
+		for _, ch := range chans {
+			want := 0
+			for _, f := range jn.chans {
+				if strings.HasPrefix(ch, f) {
+					want = 1
+				}
+			}
+			if cnt[ch] != want {
+				fail("other-connection-disturbed", fmt.Sprintf("joiner %s (subscribed to %v while the victims were ending) received the final message on %s %d times, expected %d", jn.cl.Name, jn.chans, ch, cnt[ch], want), wit())
+			}
+		}
+		rec.Inc("joiners_checked")
 	}
 	pubs, err := obs.Take()
 	if err != nil {
